@@ -56,6 +56,10 @@ def main():
     if rc != 0:
         print("patch does not apply to /repo:", o); return 2
     results = {}
+    ev_backup = {}
+    for c in checks:
+        fn = os.path.join(ROOT, "evidence", c + ".json")
+        ev_backup[fn] = open(fn).read() if os.path.exists(fn) else None
     try:
         for c in checks:
             for tier in (["quick", "thorough"] if a.thorough else ["quick"]):
@@ -67,6 +71,12 @@ def main():
                 if rc == 1:
                     break
     finally:
+        for fn, txt in ev_backup.items():          # evidence must only ever describe runs on the real tree
+            if txt is None:
+                if os.path.exists(fn):
+                    os.remove(fn)
+            else:
+                open(fn, "w").write(txt)
         sh("git checkout -- .", cwd="/repo")
         rc, o = sh("git status --porcelain", cwd="/repo")
         assert not o.strip(), "could not restore /repo: " + o
